@@ -577,6 +577,35 @@ def fam_common(rng, n):
     return out
 
 
+def fam_json(rng, n):
+    """C16: every kind of result (all versions, errors with arbitrary remaining bytes, 128-bit counters,
+    NaN/infinite floats, non-UTF-8 strings, empty values) serialised twice and on a twin parser"""
+    out = []
+    specials = ["7ff8000000000001", "7ff0000000000000", "fff0000000000000", "0000000000000000", "8000000000000000", "3ff8000000000000", "7fefffffffffffff", "0000000000000001"]
+    for _ in range(n):
+        ex = Exporter(rng)
+        calls = [rand_packets(rng, ex, rng.choice([1, 2])) for _ in range(rng.randrange(1, 4))]
+        if rng.random() < 0.3:
+            calls.append([{"raw": {"b": hx(rbytes(rng, rng.choice([1, 3, 9, 30])))}}])
+        ops = [op_new(0), op_new(1)]
+        for c in calls:
+            ops.append(op_parse(0, msgs=c, want=["json"]))
+        for c in calls:
+            ops.append(op_parse(1, msgs=c, want=["json"]))
+        ops.append({"op": "assert_same", "a": 0, "b": 1, "key": "C16"})
+        out.append(("json", ops))
+    # targeted: float64 / u128 / strings
+    f64_fields = IP_BY_TY.get("f64", [])
+    for bits in specials:
+        if not f64_fields:
+            break
+        t = {"id": 256, "fields": [{"typ": f64_fields[0], "len": 8, "ent": None}, {"typ": 1, "len": 16, "ent": None}, {"typ": IP_BY_TY["str"][0], "len": 5, "ent": None}]}
+        tm = {"ipfix": {"m": {"exportTime": 1, "seq": 1, "odid": 1, "sets": [{"templates": {"ts": [t], "pad": ""}}]}}}
+        rec = [{"content": bits, "form": "fixed"}, {"content": "ff" * 16, "form": "fixed"}, {"content": "61ff62c328", "form": "fixed"}]
+        data = {"ipfix": {"m": {"exportTime": 2, "seq": 2, "odid": 1, "sets": [{"data": {"id": 256, "recs": [rec], "pad": ""}}]}}}
+        out.append(("json-special", [op_new(0), op_parse(0, msgs=[tm, data], want=["json"])]))
+    return out
+
 def fam_extremal(rng, tier):
     """C01/C15: the proved worst cases for recursion depth and allocation, always AFTER a history that
     cached attacker-chosen templates"""
